@@ -373,45 +373,39 @@ theorem display_wl (e : Elem) : WLb 0 e.display = true := by
 theorem rankIndexPy_wl (neg : Bool) (k count : Nat) : WLb 0 (rankIndexPy neg k count) = true := by
   cases neg <;> simp [rankIndexPy, natPy, numPy, WLb, ldem, rbp, bp]
 
+theorem npCall_wl (fn : String) (e : Elem) : WLb 0 (npCall fn e.display) = true := by
+  have := display_wl e
+  unfold Elem.display at this ⊢
+  split <;> simp_all [npCall, WLb, WLbArgs, WLbArg]
+
 /-- **(1, aggregates)** every aggregate expression is well-levelled -/
 theorem aggTerm_wl (g : Agg) (e : Elem) (p : Py) (h : aggTerm g e = some p) : WLb 0 p = true := by
   unfold aggTerm at h
   split at h
-  · split at h
-    · simp only [Option.some.injEq] at h; subst h; simpa [WLb] using (ref_wl e.name []).1
-    · simp only [Option.some.injEq] at h; subst h; simpa [WLb] using (ref_wl e.name []).1
-    · simp only [Option.some.injEq] at h; subst h; simp [WLb]
-  · split at h
-    · simp only [Option.map_eq_some_iff] at h
+  · cases g with
+    | sum =>
+      simp only [aggArr, Option.map_eq_some_iff] at h
       obtain ⟨c, hc, rfl⟩ := h
       simp only [WLb]
       exact chain_wl .add (Or.inl rfl) _ c (fun y hy => by
         have := rowMajor_wl e y hy; exact ⟨this.1, by rw [this.2]; simp [rbp, bp]⟩) hc
-    · simp only [Option.map_eq_some_iff] at h
+    | prod =>
+      simp only [aggArr, Option.map_eq_some_iff] at h
       obtain ⟨c, hc, rfl⟩ := h
       simp only [WLb]
       exact chain_wl .mul (Or.inr rfl) _ c (fun y hy => by
         have := rowMajor_wl e y hy; exact ⟨this.1, by rw [this.2]; simp [rbp, bp]⟩) hc
-    · simp only [Option.some.injEq] at h; subst h
-      simp [npCall, WLb, WLbArgs, WLbArg]
-      have := display_wl e
-      unfold Elem.display at this ⊢
-      split <;> simp_all [WLb, WLbArg]
-    · simp only [Option.some.injEq] at h; subst h
-      simp [npCall, WLb, WLbArgs, WLbArg]
-      have := display_wl e
-      unfold Elem.display at this ⊢
-      split <;> simp_all [WLb, WLbArg]
-    · simp only [Option.some.injEq] at h; subst h
-      simp [npCall, WLb, WLbArgs, WLbArg]
-      have := display_wl e
-      unfold Elem.display at this ⊢
-      split <;> simp_all [WLb, WLbArg]
-    · simp only [Option.some.injEq] at h; subst h; simp [natPy, WLb]
-    · simp only [Option.some.injEq] at h; subst h
-      simp only [WLb, WLbArgs, WLbArg, lvlH_call, lvlH_name, rankIndexPy_wl, Bool.and_true, Bool.true_and,
-        ge_iff_le, le_refl, decide_true]
+    | mean => simp only [aggArr, Option.some.injEq] at h; subst h; exact npCall_wl _ e
+    | median => simp only [aggArr, Option.some.injEq] at h; subst h; exact npCall_wl _ e
+    | std => simp only [aggArr, Option.some.injEq] at h; subst h; exact npCall_wl _ e
+    | size => simp only [aggArr, Option.some.injEq] at h; subst h; simp [natPy, WLb]
+    | rank neg k =>
+      simp only [aggArr, Option.some.injEq] at h; subst h
+      simp only [sortedCall, WLb, WLbArgs, WLbArg, lvlH_call, lvlH_name, rankIndexPy_wl, Bool.and_true,
+        Bool.true_and, ge_iff_le, le_refl, decide_true]
       exact WLbL_of_all _ (fun p hp => (rowMajor_wl e p hp).1)
+  · simp only [Option.some.injEq] at h; subst h
+    cases g <;> simp [aggScalar, WLb] <;> exact (ref_wl e.name []).1
 
 theorem aggTerm_parses (g : Agg) (e : Elem) (p : Py) (h : aggTerm g e = some p) : Parses (pr p) p :=
   parse_print p (aggTerm_wl g e p h)
@@ -713,7 +707,7 @@ def valV (A : String) (m : Nat) : Fin m → R := fun i => rv ρ A [.i i.val]
 /-- **matrix · matrix**: the expression of result element (i, j) evaluates to `(A * B) i j`
 (Mathlib's `Matrix.mul`) -/
 theorem dot_mm (A B : String) (m n p : Nat) (hn : 0 < n) (i : Fin m) (j : Fin p) :
-    ∃ e, dotTerm (.el (.mat A m n)) (.el (.mat B n p)) [.i i, .i j] = some e ∧
+    ∃ e, termAt .dot (.el (.mat A m n)) (.el (.mat B n p)) [.i i, .i j] = some e ∧
       eval (car O ρ) σ e = .r ((valM ρ A m n * valM ρ B n p) i j) := by
   have hm : 0 < m := Fin.pos i
   have hp : 0 < p := Fin.pos j
@@ -725,6 +719,7 @@ theorem dot_mm (A B : String) (m n p : Nat) (hn : 0 < n) (i : Fin m) (j : Fin p)
     (fun k _ => eval_ref O ρ σ _ _) (fun k _ => eval_ref O ρ σ _ _)
   refine ⟨e, ?_, ?_⟩
   · rw [← he]
+    simp only [termAt]
     unfold dotTerm
     rw [mat_dims A m n hm, mat_dims B n p hn]
     have h1 : n ≠ 0 := by omega
@@ -736,7 +731,7 @@ theorem dot_mm (A B : String) (m n p : Nat) (hn : 0 < n) (i : Fin m) (j : Fin p)
 
 /-- **matrix · vector** = `Matrix.mulVec` -/
 theorem dot_mv (A v : String) (m n : Nat) (hn : 0 < n) (i : Fin m) :
-    ∃ e, dotTerm (.el (.mat A m n)) (.el (.vec v n)) [.i i] = some e ∧
+    ∃ e, termAt .dot (.el (.mat A m n)) (.el (.vec v n)) [.i i] = some e ∧
       eval (car O ρ) σ e = .r (Matrix.mulVec (valM ρ A m n) (valV ρ v n) i) := by
   have hm : 0 < m := Fin.pos i
   obtain ⟨e, he, hev⟩ := dotChain_eval O ρ σ n hn
@@ -747,6 +742,7 @@ theorem dot_mv (A v : String) (m n : Nat) (hn : 0 < n) (i : Fin m) :
     (fun k _ => eval_ref O ρ σ _ _) (fun k _ => eval_ref O ρ σ _ _)
   refine ⟨e, ?_, ?_⟩
   · rw [← he]
+    simp only [termAt]
     unfold dotTerm
     rw [mat_dims A m n hm, vec_dims v n hn]
     have h1 : n ≠ 0 := by omega
@@ -757,7 +753,7 @@ theorem dot_mv (A v : String) (m n : Nat) (hn : 0 < n) (i : Fin m) :
 
 /-- **vector · matrix** = `Matrix.vecMul` -/
 theorem dot_vm (v A : String) (m n : Nat) (hm : 0 < m) (j : Fin n) :
-    ∃ e, dotTerm (.el (.vec v m)) (.el (.mat A m n)) [.i j] = some e ∧
+    ∃ e, termAt .dot (.el (.vec v m)) (.el (.mat A m n)) [.i j] = some e ∧
       eval (car O ρ) σ e = .r (Matrix.vecMul (valV ρ v m) (valM ρ A m n) j) := by
   have hn : 0 < n := Fin.pos j
   obtain ⟨e, he, hev⟩ := dotChain_eval O ρ σ m hm
@@ -768,6 +764,7 @@ theorem dot_vm (v A : String) (m n : Nat) (hm : 0 < m) (j : Fin n) :
     (fun k _ => eval_ref O ρ σ _ _) (fun k _ => eval_ref O ρ σ _ _)
   refine ⟨e, ?_, ?_⟩
   · rw [← he]
+    simp only [termAt]
     unfold dotTerm
     rw [vec_dims v m hm, mat_dims A m n hm]
     have h1 : n ≠ 0 := by omega
@@ -778,7 +775,7 @@ theorem dot_vm (v A : String) (m n : Nat) (hm : 0 < m) (j : Fin n) :
 
 /-- **vector · vector** = `dotProduct` (the equation of a non-arrayed element) -/
 theorem dot_vv (v w : String) (m : Nat) (hm : 0 < m) :
-    ∃ e, dotTermNoIndex (.el (.vec v m)) (.el (.vec w m)) = some e ∧
+    ∃ e, termNoIndex .dot (.el (.vec v m)) (.el (.vec w m)) = some e ∧
       eval (car O ρ) σ e = .r (dotProduct (valV ρ v m) (valV ρ w m)) := by
   obtain ⟨e, he, hev⟩ := dotChain_eval O ρ σ m hm
     (fun k => subOf (.el (.vec v m)) [.i k]) (fun k => subOf (.el (.vec w m)) [.i k])
@@ -788,6 +785,7 @@ theorem dot_vv (v w : String) (m : Nat) (hm : 0 < m) :
     (fun k _ => eval_ref O ρ σ _ _) (fun k _ => eval_ref O ρ σ _ _)
   refine ⟨e, ?_, ?_⟩
   · rw [← he]
+    simp only [termNoIndex]
     unfold dotTermNoIndex
     rw [vec_dims v m hm, vec_dims w m hm]
     simp
@@ -796,8 +794,9 @@ theorem dot_vv (v w : String) (m : Nat) (hm : 0 < m) :
 
 /-- **scalar forms of dot** (`A.dot(s)`, `s.dot(A)`, `A.dot(2.0)`): every element times the value -/
 theorem dot_scalar_right (a b : Operand) (idx : List Key) (hb : b.dims = .val) (ha : a.dims ≠ .val)
-    (p : Py) (h : dotTerm a b idx = some p) :
+    (p : Py) (h : termAt .dot a b idx = some p) :
     ∃ x y, a.valAt O ρ idx = some x ∧ b.valAt O ρ idx = some y ∧ eval (car O ρ) σ p = .r (x * y) := by
+  simp only [termAt] at h
   unfold dotTerm at h
   rw [hb] at h
   cases a with
@@ -825,6 +824,384 @@ theorem dot_scalar_right (a b : Operand) (idx : List Key) (hb : b.dims = .val) (
       exact ⟨rv ρ e.name path, y, by simp [Operand.valAt, harr, hpath], hy,
         eval_prodTerm O ρ σ _ _ _ _ (eval_ref O ρ σ _ _) hey⟩
 
+/-! ### aggregates -/
+
+/-- key paths of the sub-elements, row by row -/
+def Elem.paths (e : Elem) : List (List Key) :=
+  if e.inner.isEmpty then e.keys.map fun k => [k]
+  else (e.keys.map fun k => e.inner.map fun l => [k, l]).flatten
+
+theorem rowMajor_eq (e : Elem) : e.rowMajor = e.paths.map (ref e.name) := by
+  unfold Elem.rowMajor Elem.rows Elem.paths
+  split
+  · simp only [List.map_map, Function.comp_def]
+    induction e.keys with
+    | nil => simp
+    | cons k ks ih => simp [ih]
+  · simp [List.map_flatten, List.map_map, Function.comp_def]
+
+/-- the values of all sub-elements in row-major order -/
+def Elem.vals (e : Elem) : List R := e.paths.map (rv ρ e.name)
+
+/-- **sum**: a left-nested `+` chain over the row-major element list = the sum of all entries -/
+theorem sum_spec (e : Elem) (p : Py) (ha : e.arrayed = true) (h : aggTerm .sum e = some p) :
+    eval (car O ρ) σ p = .r (e.vals ρ).sum := by
+  simp only [aggTerm, ha, if_true, aggArr, Option.map_eq_some_iff] at h
+  obtain ⟨c, hc, rfl⟩ := h
+  rw [rowMajor_eq] at hc
+  cases hp : e.paths with
+  | nil => simp [hp, chain] at hc
+  | cons x xs =>
+    simp only [hp, List.map_cons, chain, Option.some.injEq] at hc
+    subst hc
+    simp only [eval]
+    have key : ∀ (l : List (List Key)) (acc : Py) (va : R), eval (car O ρ) σ acc = .r va →
+        eval (car O ρ) σ ((l.map (ref e.name)).foldl (fun a y => .bin .add a y) acc)
+          = .r (va + (l.map (rv ρ e.name)).sum) := by
+      intro l
+      induction l with
+      | nil => intro acc va h; simpa using h
+      | cons k ks ih =>
+        intro acc va h
+        simp only [List.map_cons, List.foldl_cons, List.sum_cons]
+        rw [ih _ _ (eval_add O ρ σ _ _ _ _ h (eval_ref O ρ σ _ _)), add_assoc]
+    rw [key xs _ _ (eval_ref O ρ σ _ _)]
+    simp [Elem.vals, hp]
+
+/-- **product**: a left-nested `*` chain over the row-major element list = the product of all entries -/
+theorem prod_spec (e : Elem) (p : Py) (ha : e.arrayed = true) (h : aggTerm .prod e = some p) :
+    eval (car O ρ) σ p = .r (e.vals ρ).prod := by
+  simp only [aggTerm, ha, if_true, aggArr, Option.map_eq_some_iff] at h
+  obtain ⟨c, hc, rfl⟩ := h
+  rw [rowMajor_eq] at hc
+  cases hp : e.paths with
+  | nil => simp [hp, chain] at hc
+  | cons x xs =>
+    simp only [hp, List.map_cons, chain, Option.some.injEq] at hc
+    subst hc
+    simp only [eval]
+    have key : ∀ (l : List (List Key)) (acc : Py) (va : R), eval (car O ρ) σ acc = .r va →
+        eval (car O ρ) σ ((l.map (ref e.name)).foldl (fun a y => .bin .mul a y) acc)
+          = .r (va * (l.map (rv ρ e.name)).prod) := by
+      intro l
+      induction l with
+      | nil => intro acc va h; simpa using h
+      | cons k ks ih =>
+        intro acc va h
+        simp only [List.map_cons, List.foldl_cons, List.prod_cons]
+        rw [ih _ _ (eval_mul O ρ σ _ _ _ _ h (eval_ref O ρ σ _ _)), mul_assoc]
+    rw [key xs _ _ (eval_ref O ρ σ _ _)]
+    simp [Elem.vals, hp]
+
+/-- the row-major value list of an indexed matrix is the double sum / product of Mathlib -/
+theorem mat_vals_sum (A : String) (m n : Nat) (hn : 0 < n) :
+    ((Elem.mat A m n).vals ρ).sum = ∑ i : Fin m, ∑ j : Fin n, valM ρ A m n i j := by
+  have hi : (rangeKeys n).isEmpty = false := by rw [rangeKeys_isEmpty]; simp; omega
+  have hi' : (Elem.mat A m n).inner.isEmpty = false := hi
+  simp only [Elem.vals, Elem.paths, hi', Bool.false_eq_true, if_false]
+  simp only [Elem.mat, rangeKeys, List.map_map, valM]
+  rw [← Finset.sum_range (fun i => ∑ j : Fin n, rv ρ A [.i i, .i j.val])]
+  clear hi'
+  induction m with
+  | zero => simp
+  | succ m ih =>
+    rw [List.range_succ, List.map_append, List.flatten_append, List.map_append, List.sum_append, ih,
+      Finset.sum_range_succ]
+    congr 1
+    simp only [List.map_cons, List.map_nil, List.flatten_cons, List.flatten_nil, List.append_nil,
+      Function.comp_def, List.map_map]
+    rw [list_sum_range n (fun j => rv ρ A [Key.i m, Key.i j]), Finset.sum_range]
+
+theorem evalL_refs (nm : String) (l : List (List Key)) :
+    evalL (car O ρ) σ (l.map (ref nm)) = l.map (fun p => V.r (rv ρ nm p)) := by
+  induction l with
+  | nil => simp [evalL]
+  | cons x xs ih => simp [evalL, ih, eval_ref]
+
+omit [CommSemiring R] in
+theorem allR_map (xs : List R) : allR (xs.map V.r) = some xs := by
+  induction xs with
+  | nil => simp [allR]
+  | cons x xs ih => simp [allR, ih]
+
+/-- the flat list display `[e1, e2, …]` of all sub-elements evaluates to the row-major value list -/
+theorem eval_flat_list (e : Elem) : eval (car O ρ) σ (.list e.rowMajor) = .lst (e.vals ρ) := by
+  simp only [eval, rowMajor_eq, evalL_refs]
+  have : (e.paths.map fun p => V.r (rv ρ e.name p)) = (e.vals ρ).map V.r := by simp [Elem.vals]
+  rw [this]
+  simp [car, listV, allR_map]
+
+/-- **rank** receives exactly the row-major element list, sorted descending, and selects with the
+index expression over `count` = number of all entries -/
+theorem rank_args (e : Elem) (neg : Bool) (k : Nat) (ha : e.arrayed = true) :
+    aggTerm (.rank neg k) e = some (.index (sortedCall e) (rankIndexPy neg k e.count)) ∧
+      eval (car O ρ) σ (sortedCall e) = .lst (O.sortDesc (e.vals ρ)) := by
+  refine ⟨by simp [aggTerm, ha, aggArr], ?_⟩
+  have h := eval_flat_list O ρ σ e
+  simp only [sortedCall, eval, evalL] at h ⊢
+  rw [h]
+  simp [car, callV]
+
+/-- **mean / median / std** of a vector receive exactly the row-major element list -/
+theorem agg_args_vec (e : Elem) (fn : String) (hi : e.inner.isEmpty = true) :
+    eval (car O ρ) σ (npCall fn e.display) = .r (O.fn fn (e.vals ρ)) := by
+  have h := eval_flat_list O ρ σ e
+  simp only [npCall, Elem.display, hi, if_true, eval, evalL] at h ⊢
+  rw [h]
+  simp [car, callV]
+
 end Sem
+
+/-! ### rank index, size, dimensions -/
+
+mutual
+/-- integer / boolean reading of the index expression of `arr_rank` -/
+def evZ (nv : String → Int) : Py → Int
+  | .num s => nv s
+  | .neg e => - evZ nv e
+  | .paren e => evZ nv e
+  | .bin .sub l r => evZ nv l - evZ nv r
+  | .ite x c y => if evB nv c then evZ nv x else evZ nv y
+  | _ => 0
+def evB (nv : String → Int) : Py → Bool
+  | .paren e => evB nv e
+  | .bin .or l r => evB nv l || evB nv r
+  | .bin .lt l r => decide (evZ nv l < evZ nv r)
+  | .bin .gt l r => decide (evZ nv l > evZ nv r)
+  | _ => false
+end
+
+/-- **rank index**: the emitted index expression computes `count-1` when `k < 0` or `k > count`
+(the smallest element), else `k-1` (the k-th largest; `k = 0` gives `-1`, Python's last = smallest) -/
+theorem rank_index_spec (nv : String → Int) (neg : Bool) (k count : Nat)
+    (h0 : nv "0" = 0) (h1 : nv "1" = 1) (hk : nv (toString k) = k) (hc : nv (toString count) = count) :
+    evZ nv (rankIndexPy neg k count) = rankIndex (if neg then -(k : Int) else k) count := by
+  cases neg <;>
+    simp only [rankIndexPy, numPy, natPy, evZ, evB, h0, h1, hk, hc, rankIndex, Bool.or_eq_true,
+      decide_eq_true_eq, Bool.false_eq_true, if_false, if_true]
+
+theorem rankIndex_in (k : Int) (count : Nat) (h1 : 1 ≤ k) (h2 : k ≤ count) :
+    rankIndex k count = k - 1 ∧ 0 ≤ k - 1 ∧ k - 1 < count := by
+  unfold rankIndex
+  have : ¬ (k < 0 ∨ k > count) := by omega
+  simp [this]; omega
+
+theorem rankIndex_out (k : Int) (count : Nat) (h : k < 0 ∨ k > count) : rankIndex k count = count - 1 := by
+  simp [rankIndex, h]
+
+theorem rankIndex_zero (count : Nat) : rankIndex 0 count = -1 := by
+  simp [rankIndex]
+
+/-- **size** is the literal number of outer keys (the documented "vector size") -/
+theorem size_spec (e : Elem) (ha : e.arrayed = true) : aggTerm .size e = some (natPy e.keys.length) := by
+  simp [aggTerm, ha, aggArr]
+
+/-- numpy's shape rules for the operations of the property, stated independently of the code:
+element-wise operators need equal shapes or a scalar; `dot` follows `np.dot` on 0/1/2-dimensional
+operands, except that scalar·scalar is refused. -/
+inductive Shape
+  | sc
+  | v (m : Nat)
+  | mx (m n : Nat)
+deriving DecidableEq, Repr
+
+def npEw : Shape → Shape → Option Shape
+  | .sc, s => some s
+  | s, .sc => some s
+  | s, t => if s = t then some s else none
+
+def npDot : Shape → Shape → Option Shape
+  | .sc, .sc => none
+  | .sc, s => some s
+  | s, .sc => some s
+  | .v m, .v m' => if m = m' then some .sc else none
+  | .v m, .mx m' n => if m = m' then some (.v n) else none
+  | .mx m n, .v n' => if n = n' then some (.v m) else none
+  | .mx m n, .mx n' p => if n = n' then some (.mx m p) else none
+
+/-- how an element of a given shape reports its dimensions (`matrix_size`) -/
+def Shape.dims : Shape → Dims
+  | .sc => .val
+  | .v m => .d2 m 0
+  | .mx m n => .d2 m n
+
+/-- the shape a resolved dimension stands for -/
+def Dims.shape : Dims → Shape
+  | .val => .sc
+  | .d1 m => .v m
+  | .d2 m n => if n = 0 then .v m else .mx m n
+
+def Shape.ok : Shape → Prop
+  | .sc => True
+  | .v m => m ≠ 0
+  | .mx m n => m ≠ 0 ∧ n ≠ 0
+
+/-- **dimension rules** (`resolve_dimensions`): for operands reporting the dimensions of shapes `s`, `t`
+(any sizes, including 1×N, N×1, 1×1 and length-1 vectors) the resolved result dimensions are exactly
+numpy's result shape, and every mismatch is a rejection. -/
+theorem dims_spec (f : Form) (a b : Operand) (s t : Shape) (hs : s.ok) (ht : t.ok)
+    (ha : a.dims = s.dims) (hb : b.dims = t.dims) :
+    (resolve f a b).map Dims.shape = (match f with | .dot => npDot s t | _ => npEw s t) := by
+  cases f with
+  | dot =>
+    simp only [resolve, resolveDot, ha, hb]
+    cases s <;> cases t <;> simp_all [Shape.dims, npDot, Dims.shape, Shape.ok]
+    all_goals (try omega)
+  | ew o =>
+    simp only [resolve, resolveEw, ha, hb]
+    cases s <;> cases t <;> simp_all [Shape.dims, npEw, Dims.shape, Shape.ok]
+    all_goals (try omega)
+  | nmul =>
+    simp only [resolve, resolveEw, ha, hb]
+    cases s <;> cases t <;> simp_all [Shape.dims, npEw, Dims.shape, Shape.ok]
+    all_goals (try omega)
+
+/-- a rejected resolution rejects the equation: `expand` is `none` whenever the constructor check or
+the dimension rules refuse the operands -/
+theorem expand_none_of_resolve (f : Form) (a b : Operand) (harr : (a.arrayed || b.arrayed) = true)
+    (h : resolve f a b = none) : expand f a b = none := by
+  unfold expand
+  split
+  · rfl
+  · simp [harr, h]
+
+theorem expand_none_of_ctor (f : Form) (a b : Operand) (h : ctorOK f a b = false) : expand f a b = none := by
+  simp [expand, h]
+
+/-! ### the entries of a result are the per-index terms -/
+
+theorem optAll_eq {α} (l : List (Option α)) (xs : List α) (h : optAll l = some xs) : l = xs.map some := by
+  induction l generalizing xs with
+  | nil => simp [optAll] at h; subst h; rfl
+  | cons a l ih =>
+    cases a with
+    | none => simp [optAll] at h
+    | some a =>
+      simp only [optAll, Option.map_eq_some_iff] at h
+      obtain ⟨ys, hys, rfl⟩ := h
+      simp [ih ys hys]
+
+theorem optAll_range {α} (m : Nat) (F : Nat → Option α) (xs : List α)
+    (h : optAll ((List.range m).map F) = some xs) (i : Nat) (x : α) (hx : xs[i]? = some x) : F i = some x := by
+  have h1 := optAll_eq _ _ h
+  have h2 : ((List.range m).map F)[i]? = (xs.map some)[i]? := by rw [h1]
+  simp only [List.getElem?_map, hx, Option.map_some] at h2
+  cases hr : (List.range m)[i]? with
+  | none => simp [hr] at h2
+  | some k =>
+    have : k = i := by
+      have := List.getElem?_eq_some_iff.mp hr
+      obtain ⟨hlt, hk⟩ := this
+      simpa using hk.symm
+    subst this
+    simpa [hr] using h2
+
+/-- entry (i, j) of a matrix result is the term of the clone carrying index `[i, j]` -/
+theorem matEntries_entry (f : Form) (a b : Operand) (m n : Nat) (rows : List (List Py))
+    (h : matEntries f a b m n = some rows) (i j : Nat) (row : List Py) (p : Py)
+    (hr : rows[i]? = some row) (hp : row[j]? = some p) : termAt f a b [.i i, .i j] = some p := by
+  have h1 := optAll_range m _ rows h i row hr
+  exact optAll_range n _ row h1 j p hp
+
+/-- entry i of an indexed vector result is the term of the clone carrying index `[i]` -/
+theorem vecEntries_entry (f : Form) (a b : Operand) (m : Nat) (es : List (Key × Py))
+    (h : vecEntries f a b false m = some es) (i : Nat) (kp : Key × Py) (hk : es[i]? = some kp) :
+    kp.1 = .i i ∧ termAt f a b [.i i] = some kp.2 := by
+  have h1 := optAll_range m _ es h i kp hk
+  simp only [Bool.false_eq_true, if_false, Option.map_eq_some_iff] at h1
+  obtain ⟨p, hp, rfl⟩ := h1
+  exact ⟨rfl, hp⟩
+
+/-! ## C10 at full strength (for the modelled operand kinds) -/
+
+/-- For ALL operator forms, operands (numbers, scalar elements, vectors and matrices of any size,
+indexed or named), indices, commutative semirings `R` and value assignments `ρ`:
+* (syntax) every emitted per-element expression and every aggregate expression is well-levelled and its
+  printed text parses (CPython precedence) back to exactly the modelled tree;
+* (element-wise) the expression at index `idx` evaluates to `A[idx] ∘ B[idx]` with scalars broadcast;
+* (number*array) to `x * A[idx]`;
+* (dot) matrix·matrix = `Matrix.mul`, matrix·vector = `mulVec`, vector·matrix = `vecMul`,
+  vector·vector = `dotProduct`, array·scalar = entry times value;
+* (aggregates) sum / product evaluate to the list sum / product of all entries in row-major order (for an
+  indexed matrix: Mathlib's double sum); rank sorts exactly the row-major entry list and indexes it with
+  `count-1` if `k<0 ∨ k>count` else `k-1`; mean/median/std of a vector receive exactly the entry list;
+  size is the number of outer keys;
+* (shapes) resolved dimensions = numpy's result shape for every pair of shapes, every mismatch (incl. 1×N,
+  N×1, 1×1) is a rejection, and a refused constructor check / resolution rejects the whole equation;
+* the entries of a matrix / vector result are the per-index terms the clauses above speak about. -/
+def C10_full : Prop :=
+  (∀ f a b r, expand f a b = some r → ∀ p ∈ r.exprs, WLb 0 p = true ∧ Parses (pr p) p) ∧
+  (∀ g e p, aggTerm g e = some p → WLb 0 p = true ∧ Parses (pr p) p) ∧
+  (∀ (R : Type) [CommSemiring R] (O : Ops R) (ρ : String → R) (σ : Nat → V R),
+    (∀ o a b idx p, termAt (.ew o) a b idx = some p →
+      ∃ x y, a.valAt O ρ idx = some x ∧ b.valAt O ρ idx = some y ∧ eval (car O ρ) σ p = .r (ewVal O o x y)) ∧
+    (∀ a b idx p, termAt .nmul a b idx = some p →
+      ∃ x y, a.valAt O ρ idx = some x ∧ b.valAt O ρ idx = some y ∧ eval (car O ρ) σ p = .r (y * x)) ∧
+    (∀ A B m n p, 0 < n → ∀ (i : Fin m) (j : Fin p),
+      ∃ e, termAt .dot (.el (.mat A m n)) (.el (.mat B n p)) [.i i, .i j] = some e ∧
+        eval (car O ρ) σ e = .r ((valM ρ A m n * valM ρ B n p) i j)) ∧
+    (∀ A v m n, 0 < n → ∀ (i : Fin m),
+      ∃ e, termAt .dot (.el (.mat A m n)) (.el (.vec v n)) [.i i] = some e ∧
+        eval (car O ρ) σ e = .r (Matrix.mulVec (valM ρ A m n) (valV ρ v n) i)) ∧
+    (∀ v A m n, 0 < m → ∀ (j : Fin n),
+      ∃ e, termAt .dot (.el (.vec v m)) (.el (.mat A m n)) [.i j] = some e ∧
+        eval (car O ρ) σ e = .r (Matrix.vecMul (valV ρ v m) (valM ρ A m n) j)) ∧
+    (∀ v w m, 0 < m →
+      ∃ e, termNoIndex .dot (.el (.vec v m)) (.el (.vec w m)) = some e ∧
+        eval (car O ρ) σ e = .r (dotProduct (valV ρ v m) (valV ρ w m))) ∧
+    (∀ a b idx p, b.dims = .val → a.dims ≠ .val → termAt .dot a b idx = some p →
+      ∃ x y, a.valAt O ρ idx = some x ∧ b.valAt O ρ idx = some y ∧ eval (car O ρ) σ p = .r (x * y)) ∧
+    (∀ e p, e.arrayed = true → aggTerm .sum e = some p → eval (car O ρ) σ p = .r (e.vals ρ).sum) ∧
+    (∀ e p, e.arrayed = true → aggTerm .prod e = some p → eval (car O ρ) σ p = .r (e.vals ρ).prod) ∧
+    (∀ A m n, 0 < n → ((Elem.mat A m n).vals ρ).sum = ∑ i : Fin m, ∑ j : Fin n, valM ρ A m n i j) ∧
+    (∀ e neg k, e.arrayed = true →
+      aggTerm (.rank neg k) e = some (.index (sortedCall e) (rankIndexPy neg k e.count)) ∧
+        eval (car O ρ) σ (sortedCall e) = .lst (O.sortDesc (e.vals ρ))) ∧
+    (∀ (e : Elem) (fn : String), e.inner.isEmpty = true →
+      eval (car O ρ) σ (npCall fn e.display) = .r (O.fn fn (e.vals ρ)))) ∧
+  (∀ (nv : String → Int) (neg : Bool) (k count : Nat), nv "0" = 0 → nv "1" = 1 → nv (toString k) = (k : Int) → nv (toString count) = (count : Int) →
+    evZ nv (rankIndexPy neg k count) = rankIndex (if neg then -(k : Int) else k) count) ∧
+  (∀ e, e.arrayed = true → aggTerm .size e = some (natPy e.keys.length)) ∧
+  (∀ f a b s t, Shape.ok s → Shape.ok t → a.dims = s.dims → b.dims = t.dims →
+    (resolve f a b).map Dims.shape = (match f with | .dot => npDot s t | _ => npEw s t)) ∧
+  (∀ f a b, (a.arrayed || b.arrayed) = true → resolve f a b = none → expand f a b = none) ∧
+  (∀ f a b, ctorOK f a b = false → expand f a b = none) ∧
+  (∀ f a b m n rows, matEntries f a b m n = some rows → ∀ i j row p, rows[i]? = some row → row[j]? = some p →
+    termAt f a b [.i i, .i j] = some p) ∧
+  (∀ f a b m es, vecEntries f a b false m = some es → ∀ i kp, es[i]? = some kp →
+    kp.1 = .i i ∧ termAt f a b [.i i] = some kp.2)
+
+theorem C10_full_holds : C10_full := by
+  refine ⟨fun f a b r h p hp => ⟨expand_wl f a b r h p hp, expand_parses f a b r h p hp⟩,
+    fun g e p h => ⟨aggTerm_wl g e p h, aggTerm_parses g e p h⟩, ?_, ?_, size_spec, dims_spec,
+    expand_none_of_resolve, expand_none_of_ctor, matEntries_entry, vecEntries_entry⟩
+  · intro R _ O ρ σ
+    exact ⟨elementwise_spec O ρ σ, nmul_spec O ρ σ, dot_mm O ρ σ, dot_mv O ρ σ, dot_vm O ρ σ, dot_vv O ρ σ,
+      fun a b idx p hb ha h => dot_scalar_right O ρ σ a b idx hb ha p h,
+      fun e p ha h => sum_spec O ρ σ e p ha h, fun e p ha h => prod_spec O ρ σ e p ha h,
+      mat_vals_sum ρ, fun e neg k ha => rank_args O ρ σ e neg k ha, fun e fn hi => agg_args_vec O ρ σ e fn hi⟩
+  · exact rank_index_spec
+
+/-! ### non-vacuity: concrete instances computed by the kernel -/
+
+example : (expand .dot (.el (.mat "A" 2 3)) (.el (.mat "B" 3 2))).map (fun r => r.exprs.length) = some 4 ∧
+    (expand .dot (.el (.mat "A" 2 3)) (.el (.mat "B" 2 3))) = none ∧
+    (expand (.ew .add) (.el (.vec "v" 3)) (.el (.mat "A" 3 1))) = none ∧
+    (expand (.ew .add) (.el (.vec "v" 3)) (.el (.mat "A" 1 3))) = none ∧
+    (expand .nmul (.num false "2.0") (.el (.mat "A" 1 1))).map (fun r => r.exprs.map pr)
+      = some [[.lp, .name "model", .dot, .name "memoize", .lp, .str "A[0][0]", .comma, .name "t", .rp, .rp,
+               .op .mul, .lp, .num "2.0", .rp]] := by decide +kernel
+
+/-- over ℕ with `ρ` = length of the reference name: (1×2 · 2) evaluates to 4·4 + 7·4 … computed -/
+example : (match dotTerm (.el (.mat "A" 1 2)) (.el (.vec "v" 2)) [.i 0] with
+    | some e => (match eval (car (R := Nat) ⟨Nat.sub, Nat.div, id, fun _ => 0, fun _ _ => 0, id⟩ String.length) (fun _ => .bad) e with
+        | .r x => x
+        | _ => 0)
+    | none => 0) = 7 * 4 + 7 * 4 := by decide +kernel
+
+#print axioms C10_full_holds
+#print axioms expand_wl
+#print axioms dot_mm
+#print axioms dims_spec
 
 end Bptk.C10
